@@ -143,12 +143,17 @@ func one(r *ev.Run, c int) {
 		case sizeCase:
 			x, kind, _ := t.GenTx(rng, p)
 			if x != nil {
-				// re-sign with a 150 kB description
+				// re-sign with a description of mixed size (0 .. 600 kB; the limit is 0.8 MB per block):
+				// the first transaction that does not fit is usually followed by smaller ones, some of
+				// which spend its outputs
 				k := sn.KeyByAddr(x.Initiator)
-				x.Desc = bytes.Repeat([]byte{byte('a' + tries%26)}, 150*1024)
+				sz := []int{600, 0, 300, 150, 0, 450, 1, 150}[rng.Intn(8)]
+				if sz > 0 {
+					x.Desc = bytes.Repeat([]byte{byte('a' + tries%26)}, sz*1024)
+				}
 				if sn.SignTx(x, []*sn.Key{k}, false) == nil {
 					x, _ = sn.Wire(x)
-					submit(x, kind+"+bigdesc")
+					submit(x, fmt.Sprintf("%s+desc%dk", kind, sz))
 				}
 			}
 		case rng.Intn(3) == 0:
